@@ -17,7 +17,9 @@ def run_demo(tmp, demo):
     env = dict(os.environ, PYTHONPATH=tmp)
     r = subprocess.run(["/venv/bin/python", demo], cwd=tmp, env=env, capture_output=True, text=True, timeout=300)
     import hashlib
-    full = r.stdout + r.stderr
+    import re as _re
+    full = (r.stdout + r.stderr).replace(tmp, "<ROOT>")       # the scratch copies live under different directories
+    full = _re.sub(r"(?<![A-Za-z0-9])(tmp|<tmp>-)[a-z0-9_]{8}(?![a-z0-9_])", "<TMP>", full)   # names tempfile made up
     return r.returncode, full.strip().splitlines()[-3:], hashlib.sha256(full.encode()).hexdigest()[:16], ("DIFFERS" in full)
 
 
